@@ -57,17 +57,20 @@ func (e Engine) Execute(r *core.Run) (viol *core.Violation) {
 }
 
 func (Engine) Describe(property string) core.Description {
-	return core.Description{
+	d := core.Description{
 		Rule: "Each run boots a fresh chain (real AkashApp over MemDB; 3-9 accounts) and, inside one synctest bubble (fake clock from 2000-01-01), the provider gateway exactly as " +
 			"rest.NewServer builds it (gwutils.NewServerTLSConfig + VerifyPeerCertificate, mux router, requireOwner/requireLeaseID/requireDeploymentID middleware) serving TLS 1.3 over in-memory pipes with socket-like buffers. " +
 			"15-40 operations are drawn: register a certificate for an account with a real MsgCreateCertificate transaction (ECDSA P-256 like the akash client, or ed25519; serials 1,0,255,256,2^63-1,2^64,2^159..; " +
-			"seven validity windows relative to the bubble clock; five extended-key-usage variants), revoke one with MsgRevokeCertificate, jump the clock (1s..400d), or open a connection with a drawn credential " +
+			"eleven validity windows relative to the bubble clock (four of them 5 s / 90 s from a boundary); five extended-key-usage variants), revoke one with MsgRevokeCertificate, jump the clock (1s..400d), or open a connection with a drawn credential " +
 			"(genuine, forged = attacker key + copied CN/issuer/serial, revoked, never registered, expired / not yet valid by dates or by clock jump, wrong usage, two-certificate chain, none; optionally resuming a " +
 			"TLS session with a ticket collected earlier with that certificate; optionally a leaf naming the victim but issued by the attacker's own CA) under a drawn chain-query fault (error, hang then error, " +
 			"hang then late answer), optionally preceded by a handshake on which the client vanishes, and send 1-3 requests on it (first a well-formed lease/deployment request as authentication " +
 			"probe, then requests with hostile path, query, header and number material). After every request the recording back-end stubs are inspected: (a) an owner-scoped call implies that the presented leaf is " +
 			"byte-identical to a certificate the harness registered for that CN+serial, unrevoked by the harness' own model, inside its validity window at bubble time, allows client authentication, was presented " +
-			"alone, and that the chain query of that handshake was not faulted; (b) every id handed to a stub names the authenticated account and this provider.",
+			"alone, and that the chain query of that handshake was not faulted; (b) every id handed to a stub names the authenticated account and this provider. " +
+			"Layer 2 (binary built with provider/gateway/rest/middleware.go rewritten so that every statement is a scheduling point): the operation 'concurrent requests' lets 2-3 accounts, each authenticated on its own " +
+			"connection, send one lease request at the same time; their handler goroutines are parked in front of every middleware statement and released one at a time as the choice stream decides, " +
+			"and the owner handed to the back end for each request (recognised by a dseq only that request names) must be the account authenticated on that connection.",
 		Real: []string{"provider/gateway/utils.NewServerTLSConfig (VerifyPeerCertificate)", "provider/gateway/rest.NewServer, newRouter, middleware, path parsing, handlers",
 			"crypto/tls 1.3 server+client, crypto/x509, net/http server+transport, gorilla/mux, gorilla/websocket upgrade", "x/cert gRPC querier (keeper.Querier().Certificates) on committed state",
 			"x/cert msg server via signed MsgCreateCertificate/MsgRevokeCertificate through baseapp DeliverTx", "app.AkashApp over MemDB (chainsim.World)",
@@ -81,13 +84,17 @@ func (Engine) Describe(property string) core.Description {
 			"acceptance is observed at the back-end boundary (owner-scoped stub reached); a route that fails earlier (404/400/401) is not an acceptance",
 			"only the stated direction is checked (accepted => genuine); that genuine clients are accepted is a reach probe, not an obligation",
 			"authentication is judged per TLS handshake; a connection kept open across a revocation or expiry is not exercised (connections are closed at the end of each operation)",
-			"one connection at a time (no concurrent handshakes); sampling: held on everything explored, not a proof"},
+			"handshakes are never concurrent; concurrent requests (Layer 2) use connections established one after the other; sampling: held on everything explored, not a proof"},
 		RequiredProbes: []string{"probe:genuine-accepted", "probe:forged-presented", "probe:revoked-presented", "probe:expired-by-clock-jump", "probe:not-yet-valid-presented",
 			"probe:chain-presented", "probe:wrong-usage-presented", "probe:hostile-path", "probe:backend-reached", "fault:chain-query-error",
 			"fault:chain-query-slow", "probe:foreign-issuer-presented", "probe:session-resumed"},
-		QuickRuns: 1200, ThoroughRuns: 80000, QuickBudgetS: 90, ThoroughBudget: 780,
-		Extra: map[string]interface{}{"engine_knobs": "-cfg noforged=1 (no forged credentials), noissuer=1 (no attacker-CA issued leaves), noresume=1 (clients keep no TLS session tickets); " +
-			"GWSIM_TRACEDIR=<dir> dumps every run's trace (selftest aid)"},
-		SimTimeUnit: "ms",
 	}
+	if layer2() {
+		d.RequiredProbes = append(d.RequiredProbes, "probe:concurrent-requests-completed")
+	}
+	d.QuickRuns, d.ThoroughRuns, d.QuickBudgetS, d.ThoroughBudget = 1200, 80000, 90, 780
+	d.Extra = map[string]interface{}{"engine_knobs": "-cfg noforged=1 (no forged credentials), noissuer=1 (no attacker-CA issued leaves), noresume=1 (clients keep no TLS session tickets); " +
+		"GWSIM_TRACEDIR=<dir> dumps every run's trace (selftest aid)", "layer2": layer2(), "layer2_unavailable_reason": os.Getenv("VERIF_LAYER2_REASON")}
+	d.SimTimeUnit = "ms"
+	return d
 }
